@@ -30,6 +30,15 @@ How the statement is covered.
   index, equal non-BERT exponents; the induction over the rounds is run on instances only), and the two negative
   results of DESIGN §6: `oneway_block1_never_completes` (O1), `bert_first_block_stalls` (O2).
 
+Scope of the registry.  `Reg` (token → ETag → what was supplied) is time-independent: during one run a token, together
+with an ETag, stands for one body.  `GoodMsg R` therefore excludes, by hypothesis, a caller that re-uses a token for
+another body while blocks of the earlier body can still arrive or are still held (aborted transfer, then the same token
+again within the expiry).  That case is real (finding F10e: the pinned code appends the new body's later blocks to the
+stale prefix); with docs/fixes/F10e.diff the first block of the new body restarts the reassembly and
+`token_reuse_restarts` re-establishes the invariant at that moment for the registry of the new body.  What stays
+excluded, because nothing on the wire distinguishes it without an ETag: blocks of the old body arriving after the new
+first block, later blocks of the new body arriving before it.
+
 Hypotheses that are assumptions about the environment: token ↔ table key injective (C03's `HashInj`), the ETag
 discipline of RFC 7959 §2.4 (`Discipline`), tokens are not empty (the layer hands token-less blocks on unassembled).
 -/
@@ -66,9 +75,9 @@ theorem slice_available {sm : Msg} {mx ms blk s0 n0 : Nat} {m0 : Bool}
       injection hd with hd; injection hd with _ hd; injection hd with h2 _
       omega
     · simp [hv, Except.toOption] at hd
-  unfold createSending
+  unfold createSending createSendingWith
   simp only [hdec]
-  unfold createSendingAt sendOff
+  unfold createSendingAt sendOffWith
   simp only [hb2]
   have e0 : (BT.b2 == BT.b1) = false := by decide
   simp only [e0, Bool.false_and, Bool.false_eq_true, if_false, Nat.add_zero]
@@ -154,7 +163,14 @@ theorem no_partial_as_complete {R : Reg} (hd : Discipline R) (app : App) (ep : E
     the application on behalf of a token, plus one if bytes are still held for it, never exceeds the number of
     arrivals of that token that can start a body (block number 0, or not a data block at all) plus one if bytes
     were held at the beginning.  Each reassembly is delivered at most once; a late duplicate or a replay of a final
-    block delivers nothing. -/
+    block delivers nothing.
+
+    What this is *not*: "exactly once" under replay of a whole transfer.  If the network replays every block of a
+    completed transfer in order (0, 1, 2, 0, 1, 2) the first block arrives twice and two deliveries are within the
+    bound — and happen: the receiver has no way to tell a replayed transfer from a repeated one (no ETag, no memory of
+    completed tokens; on datagram transports the message-ID de-duplication of C05 sits below this layer).  "At most
+    once per arrival of a first block" is what the layer provides and what is proved; `once_if_first_block_arrives_once`
+    is the reading under the discipline "a first block of a token arrives at most once". -/
 theorem once (app : App) (tok : Nat) (htok : tok ≠ 0) (ep : Endpoint) (as : List Arrival) :
     deliveredFor app tok ep as + heldNe ((Endpoint.run app ep as).1.receiving tok) ≤
       heldNe (ep.receiving tok) + startsFor tok as :=
@@ -170,6 +186,12 @@ theorem once_from_empty (app : App) (tok : Nat) (htok : tok ≠ 0) (ep : Endpoin
   rw [hempty] at this
   simp [heldNe] at this
   omega
+
+/-- under the discipline that the first block of a token arrives at most once (no replay of a whole transfer, no re-use
+    of the token), at most one message is handed to the application on behalf of the token: exactly once or not at all -/
+theorem once_if_first_block_arrives_once (app : App) (tok : Nat) (htok : tok ≠ 0) (ep : Endpoint) (as : List Arrival)
+    (hempty : ep.receiving tok = none) (h1 : startsFor tok as ≤ 1) : deliveredFor app tok ep as ≤ 1 :=
+  Nat.le_trans (once_from_empty app tok htok ep as hempty) h1
 
 /-- **tokens_independent.** `Handle` calls for messages with different tokens commute: the same caches result and
     each call produces the same reply, deliveries and error report whichever comes first — concurrent transfers
@@ -197,16 +219,40 @@ theorem szx_negotiation_min :
 /-- **etag_change_restarts.** A block whose ETag differs from the ETag of what is held discards the held bytes and
     takes over ETag, options and code of the new representation: afterwards exactly this block's payload is held
     if it is the first block, and nothing otherwise.  With an equal ETag what is held is kept (and extended iff the
-    block starts where it ends). -/
+    block starts where it ends) — unless the block is a first block and first blocks restart the transfer (F10e). -/
 theorem etag_change_restarts {r c0 : Msg} {a b : Bytes} (hr : r.etag = some a) (hc : c0.etag = some b) (off : Nat) :
     (a ≠ b → (absorb r c0 off).1.etag = some a ∧ (absorb r c0 off).1.other = r.other ∧ (absorb r c0 off).1.code = r.code ∧
       (absorb r c0 off).1.body = (if off = 0 then r.body else [])) ∧
-    (a = b → (absorb r c0 off).1.body = if off = c0.body.length then c0.body ++ r.body else c0.body) :=
-  ⟨fun hab => absorb_restart hr hc hab off, fun hab => absorb_same (by rw [hr, hc, hab]) off⟩
+    (a = b → ¬ (block0Restarts = true ∧ off = 0) →
+      (absorb r c0 off).1.body = if off = c0.body.length then c0.body ++ r.body else c0.body) :=
+  ⟨fun hab => absorb_restart hr hc hab off, fun hab hnr => absorb_same (by rw [hr, hc, hab]) off hnr⟩
+
+/-- **token_reuse_restarts** (F10e; holds once `block0Restarts` is regenerated as `true`, i.e. with docs/fixes/F10e.diff in the
+    tree).  The registry `Reg` of the exactness theorems is time-independent: a token (with an ETag) stands for one body
+    during the whole run.  A caller that re-uses a token for another body — typically after an aborted transfer, within
+    the expiry of the entry — leaves that frame at the moment the new body's first block arrives.  This theorem is the
+    bridge: whatever is held under the token at that moment (`c0` is arbitrary: a prefix of the abandoned body, with
+    its options), the first block of the new body replaces it; afterwards exactly that block is held with the new
+    body's options, code and ETag, so `reassembly_prefix` / `complete_eq` apply again with the registry in which the
+    token stands for the new body.  **Excluded, because indistinguishable on the wire without an ETag:** blocks of the
+    old body that arrive after the new first block, and later blocks of the new body that arrive before it. -/
+theorem token_reuse_restarts {R : Reg} (hfix : block0Restarts = true) {tok : Nat} {r c0 : Msg} {s : Supplied}
+    (htok : c0.tok = tok) (hr : Matches R tok r s) (hs : SliceAt s.body 0 r.body) :
+    (absorb r c0 0).2 = true ∧ Matches R tok (absorb r c0 0).1 s ∧ (absorb r c0 0).1.body = r.body ∧
+    (absorb r c0 0).1.body <+: s.body ∧ (r.body.length = s.body.length → (absorb r c0 0).1.body = s.body) :=
+  absorb_first_block_ok hfix htok hr hs
 
 /-- **expiry_finite** ("never by hanging"): every waiting state of the model has a finite deadline.  A cache entry
     is invisible to `Load` after its deadline and removed by the next sweep (a receiving entry takes the sending
-    entry of its key along); a `Do` call whose context deadline has been reached returns. -/
+    entry of its key along); a `Do` call whose context deadline has been reached returns.
+
+    Clause 4 needs `p.deadline = some t`: a `Pending` without deadline never returns by time in the model, and neither
+    does the code — `Do` with a context without deadline blocks in `doInternal` until the response arrives, the context
+    is cancelled or the connection is closed (C09's subject); the block-wise layer adds no timer of its own to the call
+    (its cache entries then live for `expiration` from their creation and the receive path stops answering, but the
+    caller is not woken).  "Never by hanging" is therefore proved for callers that bound their calls, which is what the
+    statement's "error or timeout" presupposes; the harness always sets a deadline and the judge's `hang` clause checks
+    that every call has returned at the end. -/
 theorem expiry_finite :
     (∀ (e : Entry) (now : Int), now > e.validUntil → live (some e) now = none) ∧
     (∀ (ep : Endpoint) (now : Int) (k : Nat) (e : Entry), ep.receiving k = some e → now > e.validUntil →
@@ -281,13 +327,14 @@ example : exDeliveries (World.run exWorld
 /-! ## Progress without faults (auxiliary: shows that the safety theorems are not vacuous; not part of the verdict) -/
 
 /-- **faultfree_progress_block1** (request upload, equal non-BERT exponents).  One round of the transfer, for a symbolic
-    block index `k`: (1) the receiver, holding exactly the first `k` blocks, appends block `k` and acknowledges it with
+    block index `k`: (1) the receiver, holding exactly the first `k ≥ 1` blocks, appends block `k` and acknowledges it with
     2.31 — or, if the block ends the body, removes its entry and hands the complete body to the application;
     (2) the sender, on that acknowledgement, emits block `k+1`.  Chaining the two from block 0 completes a body of
     `n` blocks after `n` arrivals at the receiver (the instance below runs the whole loop). -/
 theorem faultfree_progress_block1 (cfg : Cfg) (r : Msg) (hs : cfg.szx < 7) (hpp : isPostPut r.code = true) (htok : r.tok ≠ 0) :
     (∀ (ent : Entry) (now : Int) (app : App) (ms k : Nat), now ≤ ent.validUntil →
       ent.msg.body = r.body.take (k * sizeN cfg.szx) → k * sizeN cfg.szx ≤ r.body.length → ent.msg.etag = r.etag → k < 2 ^ 20 →
+      0 < k →
       ((k + 1) * sizeN cfg.szx < r.body.length →
         handleS cfg ⟨none, some ent⟩ now (uploadBlock r cfg.szx ms k) app =
           (⟨none, some ⟨{ ent.msg with body := r.body.take ((k + 1) * sizeN cfg.szx) }, ent.validUntil⟩⟩,
@@ -300,12 +347,12 @@ theorem faultfree_progress_block1 (cfg : Cfg) (r : Msg) (hs : cfg.szx < 7) (hpp 
       (k + 1) * sizeN cfg.szx ≤ r.body.length → r.body.length < 4294967296 → k + 1 < 2 ^ 20 →
       handleS cfg ⟨some ⟨r, exp⟩, rcv⟩ now (uploadAck r.tok cfg.szx k) app =
         (⟨some ⟨r, exp⟩, rcv⟩, { reply := some (uploadBlock r cfg.szx cfg.maxSize (k + 1)) })) :=
-  ⟨fun ent now app ms k h1 h2 h3 h4 h5 => receiver_round cfg r ent now app ms k hs hpp htok h1 h2 h3 h4 h5,
+  ⟨fun ent now app ms k h1 h2 h3 h4 h5 h6 => receiver_round cfg r ent now app ms k hs hpp htok h1 h2 h3 h4 h5 h6,
    fun exp now rcv app k h1 h2 h3 h4 => sender_round cfg r exp now rcv app k hs hpp htok h1 h2 h3 h4⟩
 
 /-- **faultfree_progress_block2** (response download, equal non-BERT exponents).  One round for a symbolic block index
     `j`: (1) the responder, with the response cached, answers the request for block `j` with block `j` (and drops the
-    cached response with the last block); (2) the requester, holding exactly the first `j` blocks, appends block `j`
+    cached response with the last block); (2) the requester, holding exactly the first `j ≥ 1` blocks, appends block `j`
     and asks for block `j+1` — or, if the block ends the body, removes its entry and hands the complete body on. -/
 theorem faultfree_progress_block2 (cfg : Cfg) (resp req : Msg) (hs : cfg.szx < 7) (hrq : isRequest req.code = true)
     (hnopp : isPostPut resp.code = false) (hnr : isRequest resp.code = false) (hnsig : isSignal resp.code = false)
@@ -318,7 +365,7 @@ theorem faultfree_progress_block2 (cfg : Cfg) (resp req : Msg) (hs : cfg.szx < 7
          { reply := some (downloadBlock resp cfg.szx cfg.maxSize j) })) ∧
     (∀ (sexp : Int) (ent : Entry) (now : Int) (app : App) (ms j : Nat), now ≤ ent.validUntil → now ≤ sexp →
       ent.msg.body = resp.body.take (j * sizeN cfg.szx) → j * sizeN cfg.szx ≤ resp.body.length → ent.msg.etag = resp.etag →
-      j + 1 < 2 ^ 20 →
+      j + 1 < 2 ^ 20 → 0 < j →
       ((j + 1) * sizeN cfg.szx < resp.body.length →
         handleS cfg ⟨some ⟨req, sexp⟩, some ent⟩ now (downloadBlock resp cfg.szx ms j) app =
           (⟨some ⟨req, sexp⟩, some ⟨{ ent.msg with body := resp.body.take ((j + 1) * sizeN cfg.szx) }, ent.validUntil⟩⟩,
@@ -328,8 +375,8 @@ theorem faultfree_progress_block2 (cfg : Cfg) (resp req : Msg) (hs : cfg.szx < 7
         (handleS cfg ⟨some ⟨req, sexp⟩, some ent⟩ now (downloadBlock resp cfg.szx ms j) app).2.delivered =
           [{ ent.msg with body := resp.body, block2 := none, size2 := none }])) :=
   ⟨fun exp now rcv app j h1 h2 h3 h4 => responder_round cfg resp req exp now rcv app j hs hrq hnopp hrc hqtok h1 h2 h3 h4,
-   fun sexp ent now app ms j h1 h2 h3 h4 h5 h6 =>
-     requester_round cfg resp req sexp ent now app ms j hs hrq hnopp hnr hnsig hncont hb1 htok h1 h2 h3 h4 h5 h6⟩
+   fun sexp ent now app ms j h1 h2 h3 h4 h5 h6 h7 =>
+     requester_round cfg resp req sexp ent now app ms j hs hrq hnopp hnr hnsig hncont hb1 htok h1 h2 h3 h4 h5 h6 h7⟩
 
 /-- the whole loop on an instance: a 40-byte POST (three 16-byte blocks) answered with 40 bytes (three blocks) completes in
     exactly 2·3 + 2·3 − 2 = 10 fault-free deliveries — both applications are handed the exact body, and A's call
@@ -341,16 +388,20 @@ example : exDeliveries (World.run exWorld ([.doReq exReq] ++ List.replicate 10 (
 
 /-! ## The two observations of DESIGN §6, as negative results -/
 
-/-- **oneway_block1_never_completes** (O1).  Every block `createSendingMessage` emits for a POST/PUT has a block
-    number of at least 1 (the "already sent" offset is added even on the first call, as `startSendingMessage` /
-    one-way `WriteMessage` make it), and a receiver that is fed only blocks that are not first blocks — in any
-    order, any number of times — never hands anything to its application for that token. -/
+/-- **oneway_block1_never_completes** (O1 / finding F10f).  As long as `startSendingMessage` asks `createSendingMessage`
+    for the "already sent" addend too (`startSkipsSent`, regenerated: true on the pinned tree, false with
+    docs/fixes/F10f.diff), the first message of a one-way POST/PUT — and every later one, which the continuation path
+    cuts — has a block number of at least 1; and a receiver that is fed only blocks that are not first blocks, in any
+    order, any number of times, never hands anything to its application for that token.  `WriteMessage` nevertheless
+    returns success: the one-way style has no channel for "error or timeout" (see the judge's `oneway` clause). -/
 theorem oneway_block1_never_completes :
+    (startSkipsSent = true → ∀ {sm : Msg} {mx ms blk : Nat} {m : Msg} {more : Bool}, isPostPut sm.code = true → (mx < 7 ∨ 1024 ≤ ms) →
+      createSendingFirst sm mx ms blk = some (m, more) → startOf m = 0) ∧
     (∀ {sm : Msg} {mx ms blk : Nat} {m : Msg} {more : Bool}, isPostPut sm.code = true → (mx < 7 ∨ 1024 ≤ ms) →
       createSending sm mx ms blk = some (m, more) → startOf m = 0) ∧
     (∀ (app : App) (tok : Nat), tok ≠ 0 → ∀ (ep : Endpoint) (as : List Arrival), ep.receiving tok = none →
       (∀ now r, Arrival.msg now r ∈ as → r.tok = tok → startOf r = 0) → deliveredFor app tok ep as = 0) :=
-  ⟨createSending_block1_not_first, no_first_block_no_delivery⟩
+  ⟨fun h => createSendingFirst_block1_not_first h, createSending_block1_not_first, no_first_block_no_delivery⟩
 
 /-- **bert_first_block_stalls** (O2).  With BERT on both sides a body of 1024 < length < buffer size goes out
     completely in the first block of `Do`, which is nevertheless flagged `more`; the block the peer's 2.31 then asks
@@ -373,9 +424,11 @@ open CoapVerif.Props.C04
 #print axioms no_partial_as_complete
 #print axioms once
 #print axioms once_from_empty
+#print axioms once_if_first_block_arrives_once
 #print axioms tokens_independent
 #print axioms szx_negotiation_min
 #print axioms etag_change_restarts
+#print axioms token_reuse_restarts
 #print axioms expiry_finite
 #print axioms system_safe
 #print axioms faultfree_progress_block1
